@@ -24,12 +24,12 @@ import (
 
 // ---- the fixed tree of machine A (spec/TwApi.tla): pages ok / bad / missing, the custom error page ----
 var apiFiles = []treeFile{
-	{Name: "layouts/main", Src: "<h>@reserve(\"title\")</h><b>@reserve(\"content\")</b>"},
+	{Name: "layouts/main", Src: "<h>@reserve(\"title\")</h><b>@reserve(\"content\")</b><p>100% %d %s %%</p>"},
 	{Name: "components/c", Src: "[{{ n }}:@slot]"},
 	{Name: "ok", Src: "@use(\"~main\")@insert(\"title\", \"T\")@insert(\"content\")@each(x in items)({{ x }}{{ loop.last ? \"\" : \",\" }})@end" +
 		"@component(\"~c\", {n: who})@slot{{ who.upper() }}@end@end@end"},
 	{Name: "bad", Src: "PARTIAL-OUTPUT-MARKER {{ who }}\n{{ items[0] / 0 }} after"},
-	{Name: "err", Src: "<custom>error page</custom>"},
+	{Name: "err", Src: "<custom>error page 50% %v</custom>"},
 	{Name: "components/boom", Src: "PARTIAL-OUTPUT-MARKER in component {{ n / 0 }}"},
 	{Name: "layouts/boom", Src: "PARTIAL-OUTPUT-MARKER in layout @reserve(\"content\") {{ items[0] / 0 }}"},
 	{Name: "bad-in-component", Src: "PARTIAL-OUTPUT-MARKER before @component(\"~boom\", {n: 1}) after"},
@@ -67,8 +67,9 @@ const fnMix = `|{{ items.join("-") }}|{{ items.reverse() }}|{{ items.slice(1) }}
 	`|{{ 3.2.ceil() }}|{{ 3.7.floor() }}|{{ -2.abs() }}|{{ 2.float() }}|{{ 2.str() }}|{{ 1234.decimal() }}|{{ 2.5.int() }}|{{ 2.5.str() }}|{{ 2.5.abs() }}|{{ 12.len() }}|{{ "<b>".raw() }}|{{ true.binary() }}` +
 	`|{{ false.then("y", "n") }}|{{ {a: 1, b: [2, 3]} }}|@dump(items)`
 
-const okPage = "<h>T</h><b>(1,)(2,)(3)[Bo:BO]</b>"
-const customPage = "<custom>error page</custom>"
+// the pages contain per cent signs: what Response writes is the page, byte for byte
+const okPage = "<h>T</h><b>(1,)(2,)(3)[Bo:BO]</b><p>100% %d %s %%</p>"
+const customPage = "<custom>error page 50% %v</custom>"
 
 // apiRec is a struct type every call passes; apiDataN adds a value of a struct type no earlier call has used
 // (reflect.StructOf with a field named after n), a pointer and a nested map, so that every conversion path of the data
